@@ -90,7 +90,7 @@ def generate(tier, seed):
         sp = gen_spec(rnd)
         kind = "lineage" if i % 4 == 0 else "model"
         c = {"kind": kind, "spec": sp, "route": rnd.choice(["pickle2", "pickle3", "pickle4", "pickle5", "deepcopy", "deepcopy"]),
-             "when": rnd.choice(["fresh", "uninitialised", "after_simulation", "after_edit"]), "depth": rnd.choice([1, 1, 2, 3]),
+             "when": rnd.choice(["fresh", "uninitialised", "after_simulation", "after_edit", "rule_on_initialised"]), "depth": rnd.choice([1, 1, 2, 3]),
              "states": [{s: float(rnd.randint(0, 7)) if rnd.random() < 0.6 else float("%.4g" % rnd.uniform(0, 9)) for s in sp["species"]} for _ in range(4)],
              "seed": rnd.getrandbits(30) + 1,
              # the same edits applied to the original and to the copy afterwards: they must still agree
@@ -201,6 +201,12 @@ def run_case(case):
         M.set_parameter("g1", 1.75)
         M.create_reaction(["A"], ["B"], "massaction", {"k": 0.3})
         M.set_species({"A": 5.0})
+    if case["when"] == "rule_on_initialised":
+        # the model is initialised (and has been simulated) when a rule that names no parameter is added; the copy is made
+        # right afterwards, with no re-initialisation in between
+        brandom.py_seed_random(case["seed"])
+        py_simulate_model(tp.copy(), Model=M, stochastic=True)
+        M.create_rule("assignment" if case["seed"] % 2 else "additive", {"equation": "Q = 2*A + 1" if case["seed"] % 2 else "Q = A + G"})
     # duplicate (copies of copies)
     try:
         D = M
